@@ -20,7 +20,7 @@ for id in $IDS; do
     cl=$(grep -E "^violation:" seeded/_results/$id.$c.log | sed -E 's/^violation: clause=([^ ]+).*/\1/' | sort -u | paste -sd, )
     line="$line $c=$ec${cl:+[$cl]}"
   done
-  git -C /repo checkout -- .
+  git -C /repo checkout -- . && git -C /repo clean -fdq -- insim insim_core insim_pth insim_smx examples
   rm -f replays/*.json
   echo "$line"
 done
